@@ -632,3 +632,44 @@ func (p *Path) callBoundIntrinsic(f FuncV, args []Value) Value {
 }
 
 var boundIntrinsics = map[string]func(p *Path, recv Value, args []Value) Value{}
+
+// sort.Slice / sort.SliceStable: the real sorting algorithms of package sort are executed
+// from SSA (pdqsort_func / stable_func with the caller's less closure); only the
+// reflection-built swapper is replaced by an engine swap of two slice cells.
+func init() {
+	boundIntrinsics["sliceswap"] = func(p *Path, recv Value, a []Value) Value {
+		s := recv.(SliceV)
+		i := p.concreteInt(a[0], "swap i")
+		j := p.concreteInt(a[1], "swap j")
+		if i < 0 || j < 0 || i >= s.len || j >= s.len {
+			p.throwRuntime("swap index out of range")
+		}
+		vi, vj := s.get(i), s.get(j)
+		s.elemPtr(i).store(vj)
+		s.elemPtr(j).store(vi)
+		return nil
+	}
+	sortWith := func(algo string) Intrinsic {
+		return func(p *Path, fn *ssa.Function, a []Value) Value {
+			iv := a[0].(IfaceV)
+			s, ok := iv.v.(SliceV)
+			if !ok {
+				p.unsup("sort.Slice on %T", iv.v)
+			}
+			pkg := p.eng.prog.ImportedPackage("sort")
+			ls := StructV{f: []Value{a[1], FuncV{intr: "sliceswap", recv: s}}}
+			if algo == "stable" {
+				p.callFunction(pkg.Func("stable_func"), []Value{ls, mkInt64(int64(s.len))}, nil, nil)
+			} else {
+				limit := 0
+				for n := s.len; n > 0; n >>= 1 {
+					limit++
+				}
+				p.callFunction(pkg.Func("pdqsort_func"), []Value{ls, mkInt64(0), mkInt64(int64(s.len)), mkInt64(int64(limit))}, nil, nil)
+			}
+			return nil
+		}
+	}
+	reg("sort.Slice", sortWith("pdq"))
+	reg("sort.SliceStable", sortWith("stable"))
+}
